@@ -161,9 +161,27 @@ func (r *Run) opClientAssert(st Step) {
 	if st.p("with_client_id") != "" {
 		form.Set("client_id", cs.ID)
 	}
+	netFault := ""
+	if nf := st.p("net_jwks"); nf != "" && cs.JWKSURI != "" {
+		netFault = nf
+		if nf == "stale" {
+			r.W.Net.Stale[cs.JWKSURI] = JWKSFor("rsa3") // cached key set is outdated; a forced refresh finds the registered key
+		} else {
+			r.W.Net.Fault[cs.JWKSURI] = nf
+		}
+		r.probe("assert-net:" + nf)
+	}
 	res := r.call("token", func() *Resp { return r.A.Token(form, nil) })
+	delete(r.W.Net.Stale, cs.JWKSURI)
+	delete(r.W.Net.Fault, cs.JWKSURI)
 	tokens := res.HasTokens()
-	r.logf("client_assert %s variant=%s -> %d %s", cs.ID, v, res.Status, outcomeOf(res))
+	if (netFault == "drop" || netFault == "5xx") && exp == Must {
+		exp = Unspec // the key set could not be fetched: refusal is legitimate
+		if tokens {
+			r.violate("C15", "assertion-accepted-without-reachable-keys", netFault, "a private_key_jwt assertion was accepted although the client's jwks_uri could not be fetched")
+		}
+	}
+	r.logf("client_assert %s variant=%s net=%s -> %d %s", cs.ID, v, netFault, res.Status, outcomeOf(res))
 	r.Shape = append(r.Shape, "cassert:"+v)
 	r.probe("assert-variant:client:" + v)
 	if res.Crashed || r.anyFault() {
@@ -348,6 +366,14 @@ func init() {
 		jwtClients(&k)
 		k.Clients = append(k.Clients, ClientSpec{ID: "oidc-jwt-ec", OIDC: true, AuthMethod: "private_key_jwt", KeyName: "ec_p256_0", AuthAlg: "ES256",
 			GrantTypes: []string{"client_credentials", grantJWTBearer}, Scopes: []string{"photos"}})
+		if t.Chance(50) {
+			// the RSA client publishes its keys at a jwks_uri: fetched over the simulated network
+			for i := range k.Clients {
+				if k.Clients[i].ID == "oidc-jwt" {
+					k.Clients[i].JWKSURI = "https://oidc-jwt.sim/jwks.json"
+				}
+			}
+		}
 		k.JWTAccess = t.Chance(30)
 		k.JWTBearerIDOptional = t.Chance(30)
 		k.JWTBearerIATOptional = t.Chance(30)
@@ -361,7 +387,11 @@ func init() {
 		for len(steps) < n {
 			switch t.Weighted([]int{40, 35, 10, 6, 6}) {
 			case 0:
-				steps = append(steps, Step{Op: "client_assert", C: t.Intn(2), V: t.Pick(clientAssertVariants)})
+				ca := Step{Op: "client_assert", C: t.Intn(2), V: t.Pick(clientAssertVariants)}
+				if t.Chance(25) {
+					ca.P = map[string]string{"net_jwks": t.Pick([]string{"drop", "5xx", "delay", "stale", "stale"})}
+				}
+				steps = append(steps, ca)
 			case 1:
 				steps = append(steps, Step{Op: "bearer_assert", C: t.Intn(2), D: int64(t.Intn(2)), V: t.Pick(bearerVariants), A: t.Pick([]string{"", "", "", "none", "bad_secret"})})
 			case 2:
